@@ -138,6 +138,7 @@ func (c RawConfiguration) handleCorrectableCall(ctx context.Context, corr *Corre
 		clevel  = LevelNotSet
 		quorum  bool
 		replies = make(map[uint32]protoreflect.ProtoMessage)
+		failed  = make(map[uint32]bool)
 	)
 
 	if state.data.ServerStream {
@@ -173,6 +174,12 @@ func (c RawConfiguration) handleCorrectableCall(ctx context.Context, corr *Corre
 		select {
 		case r := <-state.replyChan:
 			if r.err != nil {
+				if failed[r.nid] {
+					// The router of a server-stream call stays registered, so the node reports
+					// every further failure of its stream as well; it has failed only once.
+					break
+				}
+				failed[r.nid] = true
 				errs = append(errs, nodeError{nodeID: r.nid, cause: r.err})
 				break
 			}
